@@ -81,7 +81,7 @@ package moss
 //@ pure func indexOK(a *segment) bool = a.index == nil || idxOK(a.index, a)
 
 //@ func (s *segmentKeysIndex) lookup(key []byte) (leftPos int, rightPos int)
-//@   props C14
+//@   props C14 C09 C01 C10
 //@   ghost a *segment
 //@   requires segValid(a) && segSorted(a) && idxOK(s, a)
 //@   ensures @bounds 0 <= leftPos && leftPos <= rightPos && rightPos <= segLen(a)
@@ -654,7 +654,7 @@ package moss
 //@ func (s *Store) compact(footer *Footer, partialCompactStart int, higher Snapshot, persistOptions StorePersistOptions) error
 //@   props C18 C06 C07 C15 C04 C05 C11 C12 C08
 //@   attr obligations call-requires ensures
-//@   attr only-labels unpublished notReadOnly readOnlyFlag liveKept cleanup wholeFooterWritten fileCountReleased doomedKeptOnSuccess
+//@   attr only-labels unpublished notReadOnly readOnlyFlag liveKept cleanup wholeFooterWritten fileCountReleased doomedKeptOnSuccess syncForced
 //@   requires @notReadOnly !readOnlyMode()
 //@   modifies *
 //@   ensures @unpublished result != nil ==> s.footer == old(s.footer)
@@ -662,6 +662,7 @@ package moss
 //@   ensures @cleanup result != nil && partialCompactStart == 0 && local(frefCompact) != nil ==> doomed == local(frefCompact)
 //@   ensures @wholeFooterWritten result == nil ==> persistedLocs == len(s.footer.SegmentLocs)
 //@   ensures @doomedKeptOnSuccess result == nil ==> doomed == old(doomed)
+//@   ensures @syncForced result == nil && s.options != nil && (s.options.CompactionSync || s.options.CompactionSyncAfterBytes > 0) ==> !unsynced
 //@   return 5: @fileCountReleased local(frefCompact) != nil ==> local(frefCompact).refs == acquiredRefs - 1
 //@   return 6: @fileCountReleased local(frefCompact) != nil ==> local(frefCompact).refs == acquiredRefs - 1
 //@   return 7: @fileCountReleased local(frefCompact) != nil ==> local(frefCompact).refs == acquiredRefs - 1
@@ -684,13 +685,15 @@ package moss
 //@ func (s *Store) persist(higher Snapshot, persistOptions StorePersistOptions) (Snapshot, error)
 //@   props C18 C06 C04 C05 C07 C11 C12 C15 C02
 //@   attr obligations call-requires ensures
-//@   attr only-labels unpublished notReadOnly readOnlyFlag modeLinked handout released twoCounts installed loaded
+//@   attr only-labels unpublished notReadOnly readOnlyFlag modeLinked handout released twoCounts installed loaded notReleased
 //@   requires @modeLinked s != nil && s.options != nil && readOnlyMode() == s.options.CollectionOptions.ReadOnly
 //@   modifies *
 //@   ensures @unpublished r1 != nil ==> s.footer == old(s.footer)
 //@   return 2: @handout r0 == ifaceOf(handedOut)
 //@   return 3: @handout r0 == ifaceOf(handedOut)
 //@   return 5: @handout r0 == ifaceOf(handedOut)
+//@   return 7: @notReleased local(footer).refs == 1
+//@   return 8: @notReleased local(footer).refs == 1
 //@   return 9: @released local(footer).refs == 0
 //@   return 9: @loaded lastLoaded == local(footer)
 //@   return 10: @twoCounts local(footer).refs == 2
@@ -831,6 +834,7 @@ package moss
 //@   requires @levels ss != nil && 0 <= minSegmentLevel && minSegmentLevel <= maxSegmentHeight && maxSegmentHeight <= len(ss.a)
 //@   requires @dest typeIs(dest, "*segment") ==> ptrOf(dest, "*segment") != nil
 //@   requires @keepsTombstones includeDeletions || (minSegmentLevel == 0 && base == nil && ss.lowerLevelSnapshot == nil)
+//@   requires @tailCopy optimizeTail ==> includeDeletions
 //@   modifies fields(ptrOf(dest, "*segment")), elems(ptrOf(dest, "*segment").kvs), elems(ptrOf(dest, "*segment").buf), heaps(compactWriter), heaps(bufferedSectionWriter), keptTombstones
 //@   ensures @tombstoneFlag keptTombstones == (old(keptTombstones) || includeDeletions)
 //@   ensures result == nil && typeIs(dest, "*segment") ==> segOK(ptrOf(dest, "*segment")) && mergedSeg(ptrOf(dest, "*segment"), ss, minSegmentLevel, maxSegmentHeight, base)
@@ -862,7 +866,7 @@ package moss
 //@   dead mergedSegment, err := newSegment(
 //@   props C01 C08 C13 C20 C11 C03 C07
 //@   attr obligations ensures inv-entry inv-preserve call-requires
-//@   attr only-labels top children keepsTombstones levels dest
+//@   attr only-labels top children keepsTombstones levels dest tailCopy
 //@   requires ss != nil
 //@   modifies heap(SnapshotWrapper.refCount), heap(SnapshotWrapper.ss), heap(SnapshotWrapper.closer), heap(CollectionStats.TotSnapshotInternalClose)
 //@   ensures @top r2 == nil ==> r0 != nil && fresh(r0) && mergedTop(r0, ss, base)
@@ -921,16 +925,20 @@ package moss
 // The footer written by a compaction belongs to the incarnation of the stack
 // it was built from and has exactly that stack's children.
 //@ func (s *Store) writeSegments(newSS, base *segmentStack, frefCompact *FileRef, fileCompact File, includeDeletes bool, syncAfterBytes int) (compactFooter *Footer, err error)
-//@   props C07 C11 C04 C05 C06
+//@   props C07 C11 C04 C05 C06 C03
 //@   attr obligations ensures call-requires
-//@   attr only-labels incar oneSegment appendOnly freshFooter deletes
+//@   attr only-labels incar oneSegment appendOnly freshFooter deletes doomedKept reported tailCopy
 //@   requires newSS != nil && treeOK(newSS) && StorePageSize > 0 && StorePageSize <= 1073741824
-//@   modifies s.totCompactionBeforeBytes, keptTombstones
+//@   modifies s.totCompactionBeforeBytes, keptTombstones, ioFailed
+//@   ensures @doomedKept doomed == old(doomed)
+//@   ensures @reported ioFailed && !old(ioFailed) ==> err != nil
 //@   ensures @deletes !includeDeletes && !old(keptTombstones) ==> !keptTombstones
 //@   ensures @incar err == nil ==> compactFooter != nil && compactFooter.incarNum == newSS.incarNum
 //@   ensures @oneSegment err == nil ==> len(compactFooter.SegmentLocs) == 1
 //@   ensures @freshFooter err == nil ==> fresh(compactFooter)
-//@   loop 1: modifies keptTombstones, compactFooter.ChildFooters
+//@   loop 1: modifies keptTombstones, compactFooter.ChildFooters, ioFailed
+//@   loop 1: invariant @reported ioFailed ==> old(ioFailed)
+//@   loop 1: invariant @doomedKept doomed == old(doomed)
 //@   loop 1: invariant compactFooter != nil && fresh(compactFooter) && compactFooter.incarNum == newSS.incarNum && len(compactFooter.SegmentLocs) == 1
 //@   loop 1: invariant @deletes !includeDeletes && !old(keptTombstones) ==> !keptTombstones
 
@@ -964,6 +972,7 @@ package moss
 //@   ensures @same err == nil ==> sameLocs(rv, revertToFooter)
 //@   ensures @children err == nil ==> (forall c string :: has(revertToFooter.ChildFooters, c) ==> has(rv.ChildFooters, c) && sameLocs(rv.ChildFooters[c], revertToFooter.ChildFooters[c]))
 //@   ensures @noOthers err == nil ==> (forall c string :: has(rv.ChildFooters, c) ==> has(revertToFooter.ChildFooters, c))
+//@   ensures @childrenOwned err == nil ==> (forall c string :: has(rv.ChildFooters, c) ==> fresh(rv.ChildFooters[c]) && rv.ChildFooters[c].refs == 1)
 //@   ensures @incar err == nil ==> rv.incarNum == revertToFooter.incarNum
 //@   ensures @stack err == nil ==> rv.ss == old(revertToFooter.ss) && rv.refs == 1
 //@   ensures @counted err == nil ==> (forall i int :: 0 <= i && i < len(revertToFooter.SegmentLocs) && revertToFooter.SegmentLocs[i].mref != nil ==>
@@ -976,6 +985,7 @@ package moss
 //@   loop 1: invariant forall c string :: visited(c) ==> has(footer.ChildFooters, c) && sameLocs(footer.ChildFooters[c], revertToFooter.ChildFooters[c])
 //@   loop 1: invariant forall c string :: has(footer.ChildFooters, c) ==> visited(c)
 //@   loop 1: invariant forall c string :: visited(c) ==> has(revertToFooter.ChildFooters, c)
+//@   loop 1: invariant @childrenOwned forall c string :: visited(c) ==> fresh(footer.ChildFooters[c]) && footer.ChildFooters[c].refs == 1
 //@   loop 1: invariant @mono forall r *mmapRef :: r.refs >= old(r.refs)
 //@   loop 1: invariant @counted forall i int :: 0 <= i && i < len(revertToFooter.SegmentLocs) && revertToFooter.SegmentLocs[i].mref != nil ==>
 //@       revertToFooter.SegmentLocs[i].mref.refs > old(revertToFooter.SegmentLocs[i].mref.refs)
@@ -1003,9 +1013,10 @@ package moss
 //@   ensures @copied r1 == nil && r0 != nil && !readOptions.NoCopyValue ==> fresh(arr(r0))
 
 //@ func (s *Store) snapshotPrevious(ss Snapshot) (Snapshot, error)
-//@   props C12
+//@   props C12 C15
 //@   attr obligations ensures
-//@   requires s != nil
+//@   requires s != nil && (typeIs(ss, "*Footer") ==> ptrOf(ss, "*Footer") != nil && ptrOf(ss, "*Footer").refs >= 1)
+//@   ensures @noFileCount r0 == nil ==> (forall r *FileRef :: r.refs == old(r.refs))
 //@   ensures @prev r1 == nil && r0 != nil ==> typeIs(ss, "*Footer") && old(len(ptrOf(ss, "*Footer").SegmentLocs)) > 0 &&
 //@       r0 == ifaceOf(scanAt(old(ptrOf(ss, "*Footer").SegmentLocs[0].mref.fref), old(ptrOf(ss, "*Footer").PrevFooterOffset)))
 
@@ -1225,7 +1236,7 @@ package moss
 //@   ensures result != nil && fresh(result)
 
 //@ func newBufferedSectionWriter$1()
-//@   props C06 C07
+//@   props C06 C07 C01 C05
 //@   attr obligations inv-entry inv-preserve
 //@   requires !ioFailed
 //@   loop 1: modifies ioFailed, unsynced
@@ -1309,6 +1320,7 @@ package moss
 //@   modifies heap(Footer.refs), heap(Footer.SegmentLocs), heap(Footer.ss), heap(Footer.ChildFooters), heap(mmapRef.refs), heap(mmapRef.buf), heap(mmapRef.fref), heap(mmapRef.mm), heap(FileRef.refs), heap(FileRef.file), heap(FileRef.beforeCloseCallbacks), heap(FileRef.afterCloseCallbacks), ioFailed
 //@   ensures @count f.refs == old(f.refs) - 1
 //@   ensures @kept f.refs > 0 ==> f.SegmentLocs == old(f.SegmentLocs) && f.ss == old(f.ss) && f.ChildFooters == old(f.ChildFooters)
+//@   ensures @keptFiles f.refs > 0 ==> (forall r *FileRef :: r.refs == old(r.refs)) && (forall r *mmapRef :: r.refs == old(r.refs))
 //@   ensures @released f.refs <= 0 ==> len(f.SegmentLocs) == 0 && f.ss == nil && f.ChildFooters == nil
 //@   ensures @children f.refs <= 0 ==> (forall c string :: old(has(f.ChildFooters, c)) ==> old(f.ChildFooters[c]).refs == old(f.ChildFooters[c].refs) - 1)
 //@   ensures @othersKept forall g *Footer :: g != f && footerDepth(g) <= footerDepth(f) ==> g.refs == old(g.refs) && g.ChildFooters == old(g.ChildFooters) && g.SegmentLocs == old(g.SegmentLocs) && g.ss == old(g.ss)
@@ -1367,7 +1379,7 @@ package moss
 //@ func (s *Store) IsAborted() bool
 //@   trusted reads the abort channel
 //@ func (s *Store) persistSegments(ss *segmentStack, footer *Footer, file File, fref *FileRef) error
-//@   props C06 C20 C04
+//@   props C06 C20 C04 C11
 //@   attr obligations call-requires ensures inv-entry inv-preserve
 //@   attr only-labels reported
 //@   requires ss != nil
